@@ -52,6 +52,17 @@ CHECKS = {
         note='Trusted: SeqCst counters maintained by the debuggee, /proc task states (a task past PTRACE_EVENT_EXIT is polled until it is gone), '
              'the native run. Evidence reports the number of distinct stop orders and of stops with a sibling parked on a breakpoint byte.',
         ref='DESIGN.md §4 C09'),
+    'C10': dict(
+        technique='runtime monitoring: conservation checker (handler executions counted by the debuggee = signals really sent by an external sender that avoids kernel coalescing) plus exactly-once matching of reported signal stops, per scenario class',
+        text='Handler-counting multi-thread programs receive thread- and process-directed signals of 12 kinds (quiet, non-quiet, SIGINT) from an '
+             'external sender in six scenario classes (one/many while running, bursts pending while stopped for different or the same thread, '
+             'pending on a thread that sits on a breakpoint, during stepi/step/next); at a final stop and at exit handler executions must equal '
+             'sends per kind and per target thread, every non-quiet send must have exactly one reported stop naming its target, quiet kinds none, '
+             'SIGINT one stop and no delivery. Held for the running classes; the other classes expose the listed known findings.',
+        note='Trusted: the debuggee\'s async-signal-safe atomic counters, /proc SigPnd/ShdPnd used by the sender to avoid coalesced sends, '
+             'cancellable heartbeat signals that end a blocking resume. Each run uses one scenario class so that defects of one class cannot leak '
+             'into another; known findings are keyed by (class, failure kind).',
+        ref='DESIGN.md §4 C10'),
     'C06': dict(
         technique='runtime monitoring: structural comparison of the debugger\'s Value trees with the debuggee\'s own canonical self-description (reference model = safe Rust in the program)',
         text='Generated programs hold ~40 variables each (locals, statics, thread-locals, arguments) from a recursive type grammar with boundary '
